@@ -78,6 +78,13 @@ for n, k, d, m in ((3, 2, 1, 1), (4, 2, 1, 1), (3, 3, 1, 1), (3, 2, 2, 1), (3, 2
 extra.append(job("c09.report", secs=300, n=3, k=2, d=1, m=1, metric=NS2, region=0))
 extra.append(job("c09.report", secs=600, jobs=4, n=4, k=2, d=1, m=2, metric=NS1, region=0))
 extra.append(job("c09.report", secs=600, jobs=4, n=4, k=2, d=1, m=1, metric=NS2, region=0))
+# runs that stop on the *tolerance* criterion with the last update having moved the centroids (real L1Dist
+# convergence test, tolerance 2^9 > every possible shift: declared converged after the first update); region=2: no
+# assumption on whether the last update moved anything
+for n, k, d in ((3, 2, 1), (4, 2, 1), (5, 2, 1), (4, 3, 1), (3, 2, 2)):
+    quick.append(job("c09.report", secs=120, qto=20000, n=n, k=k, d=d, m=2, metric=L1, tolshift=-9, region=2))
+extra.append(job("c09.report", secs=600, jobs=4, n=5, k=3, d=1, m=3, metric=L1, tolshift=-9, region=2))
+extra.append(job("c09.report", secs=600, jobs=4, n=4, k=2, d=2, m=3, metric=L1, tolshift=-9, region=2))
 for ob in (1, 2):
     findings.append(job("c09.report", secs=60, n=3, k=2, d=1, m=1, metric=NS1, region=1, ob=ob))
     findings.append(job("c09.report", secs=60, n=3, k=2, d=1, m=1, metric=NS2, region=1, ob=ob))
